@@ -99,6 +99,6 @@ def run(prop, tier, seed, select, level="model_checking"):
 
 
 def replay(prop, path, seed):
-    c = Check(prop, "quick", seed, "model_checking")
+    c = Check(prop, "quick", seed, "model_checking", replay=True)
     c.validate("aggregator", "AggregatorTrace", "AggregatorTrace.cfg", os.path.abspath(path), env_extra={"PROP": prop})
     return c.finish()
